@@ -23,15 +23,16 @@ def bitsVal : List Bool → Nat
   | [] => 0
   | b :: r => (if b then 1 else 0) * 2 ^ r.length + bitsVal r
 
-/-- pack bits into bytes, the last byte padded with ones (the EOS prefix) -/
-def packBits : List Bool → Bytes
-  | [] => []
-  | b0 :: r =>
-    let chunk := (b0 :: r).take 8
-    let padded := chunk ++ List.replicate (8 - chunk.length) true
-    UInt8.ofNat (bitsVal padded) :: packBits ((b0 :: r).drop 8)
-termination_by l => l.length
-decreasing_by simp; omega
+/-- pack bits into bytes, the last byte padded with ones (the EOS prefix): `cur` holds the `n`
+bits of the byte being filled -/
+def packAux : List Bool → Nat → Nat → Bytes
+  | [], _, 0 => []
+  | [], cur, n + 1 => [UInt8.ofNat (cur * 2 ^ (8 - (n + 1)) + (2 ^ (8 - (n + 1)) - 1))]
+  | b :: r, cur, n =>
+    let cur' := cur * 2 + (if b then 1 else 0)
+    if n + 1 = 8 then UInt8.ofNat cur' :: packAux r 0 0 else packAux r cur' (n + 1)
+
+def packBits (bits : List Bool) : Bytes := packAux bits 0 0
 
 /-- `httlib_huffman::encode` -/
 def encode (s : Bytes) : Bytes := packBits (s.flatMap (fun b => codeBits b.toNat))
